@@ -316,7 +316,9 @@ func init() {
 		},
 		"(*" + TargetModule + "/internal/caching.Set).newKey": func(fr *frame, a []value) value {
 			ns := a[1].([]value)
-			data := append(append([]value{}, ns...), a[2].([]value)...)
+			// one domain for all namespaces: data = len(ns) ‖ ns ‖ v, so that digests under
+			// different namespaces are related by the injectivity axioms too
+			data := append(append([]value{uint8(len(ns))}, ns...), a[2].([]value)...)
 			nsb := make([]byte, 0, len(ns))
 			conc := true
 			for _, b := range ns {
@@ -333,11 +335,11 @@ func init() {
 					if err != nil {
 						panic(engineError("blake2b key: " + err.Error()))
 					}
-					h.Write(b[len(nsb):])
+					h.Write(b[1+len(nsb):])
 					return h.Sum(nil)
 				}
 			}
-			return tuple{fr.i.hashArray(fmt.Sprintf("blake2b-keyed-%d", len(ns)), data, 32, native), iface{}}
+			return tuple{fr.i.hashArray("blake2b-keyed", data, 32, native), iface{}}
 		},
 		"crypto/sha256.Sum256": func(fr *frame, a []value) value {
 			return fr.i.hashArray("sha256", a[0].([]value), 32, func(b []byte) []byte { h := sha256.Sum256(b); return h[:] })
@@ -475,8 +477,26 @@ func extSymIte(fr *frame, a []value) value {
 // ---- ideal hashes ----
 
 type hashApp struct {
-	in  []value
-	out []*Term
+	in       []value
+	out      []*Term
+	concrete bool
+}
+
+// hashAxiom: equal inputs <=> equal outputs (different lengths: different outputs).
+func (ps *pathState) hashAxiom(app, prev *hashApp, n int) {
+	outEq := ps.ts.Bool(true)
+	for k := 0; k < n; k++ {
+		outEq = ps.ts.And(outEq, ps.ts.Eq(app.out[k], prev.out[k]))
+	}
+	if len(prev.in) != len(app.in) {
+		ps.axiom(ps.ts.Not(outEq))
+		return
+	}
+	inEq := ps.ts.Bool(true)
+	for k := range app.in {
+		inEq = ps.ts.And(inEq, ps.ts.Eq(ps.lift(app.in[k]), ps.lift(prev.in[k])))
+	}
+	ps.axiom(ps.ts.Eq(inEq, outEq))
 }
 
 // hashBytes applies the ideal hash `domain` to data, returning n bytes.
@@ -496,34 +516,35 @@ func (i *interpreter) hashBytes(domain string, data []value, n int, native func(
 		}
 		d := native(bs)
 		out := make([]value, n)
+		app := &hashApp{in: append([]value(nil), data...), concrete: true}
 		for k := 0; k < n; k++ {
 			out[k] = d[k]
+			app.out = append(app.out, ps.ts.BV(uint64(d[k]), 8))
+		}
+		// consistency/injectivity against earlier symbolic applications in this domain
+		for _, prev := range ps.hashApps[domain] {
+			if !prev.concrete {
+				ps.hashAxiom(app, prev, n)
+			}
+		}
+		if ps.hashSymbolic[domain] || len(ps.hashApps[domain]) < 4096 {
+			ps.hashApps[domain] = append(ps.hashApps[domain], app)
 		}
 		return out
 	}
 	// symbolic input: fresh output bytes + functional consistency and injectivity
-	// against every earlier symbolic application in the same domain with the same
-	// input length ("no guessing": a digest never equals a value not produced by
-	// the hash is NOT assumed; only injectivity/consistency are).
+	// against every earlier application (symbolic or concrete) in the same domain.
+	if ps.hashSymbolic == nil {
+		ps.hashSymbolic = map[string]bool{}
+	}
+	ps.hashSymbolic[domain] = true
 	idx := len(ps.hashApps[domain])
 	app := &hashApp{in: append([]value(nil), data...)}
 	for k := 0; k < n; k++ {
 		app.out = append(app.out, ps.ts.Var(fmt.Sprintf("H_%s_%d[%d]", domain, idx, k), bvSort(8)))
 	}
 	for _, prev := range ps.hashApps[domain] {
-		outEq := ps.ts.Bool(true)
-		for k := 0; k < n; k++ {
-			outEq = ps.ts.And(outEq, ps.ts.Eq(app.out[k], prev.out[k]))
-		}
-		if len(prev.in) != len(app.in) {
-			ps.axiom(ps.ts.Not(outEq))
-			continue
-		}
-		inEq := ps.ts.Bool(true)
-		for k := range app.in {
-			inEq = ps.ts.And(inEq, ps.ts.Eq(ps.lift(app.in[k]), ps.lift(prev.in[k])))
-		}
-		ps.axiom(ps.ts.Eq(inEq, outEq))
+		ps.hashAxiom(app, prev, n)
 	}
 	ps.hashApps[domain] = append(ps.hashApps[domain], app)
 	out := make([]value, n)
@@ -539,7 +560,16 @@ func (i *interpreter) hashArray(domain string, data []value, n int, native func(
 
 func extSymHash(fr *frame, a []value) value {
 	dom := strOf(a[0])
-	return fr.i.hashBytes("sym:"+dom, a[1].([]value), 32, func(b []byte) []byte {
+	// one ideal hash for all harness domains: data = len(dom) ‖ dom ‖ payload, so that
+	// digests of different domains are related by the injectivity axioms as well
+	data := []value{uint8(len(dom))}
+	for k := 0; k < len(dom); k++ {
+		data = append(data, dom[k])
+	}
+	pre := len(data)
+	data = append(data, a[1].([]value)...)
+	return fr.i.hashBytes("sym", data, 32, func(b []byte) []byte {
+		b = b[pre:]
 		h := sha256.New()
 		h.Write([]byte{byte(len(dom))})
 		h.Write([]byte(dom))
